@@ -1,4 +1,5 @@
-(* Model of input/syslogparser/syslogparser.go (NewParser's mapping check, Parse,
+(* Model of input/syslogparser/syslogparser.go after the fix: commits 91dcfb8 (HasSuffix guard) and
+   e7bedba (clean when truncated) (NewParser's mapping check, Parse,
    onMalformed, onOverflow, nextFieldBySpace), the counters of
    base/loginputcounterset.go (CountRecordPass / CountRecordDrop and the custom
    "overflow" counter) and the tables of input/syslogprotocol/syslogprotocol.go.
@@ -218,6 +219,16 @@ Fixpoint parse_stream (cfg : config) (cnt : counters) (msgs : list bytes) : list
   match msgs with
   | [] => []
   | m :: ms => let r := parse cfg cnt m in r :: parse_stream cfg (snd r) ms
+  end.
+
+(* sysloginput.compositeParser.Parse: the record of the underlying parser goes through the extraction
+   transforms ([extract], None = base.DROP: the record is released; the parser's counters are not
+   touched by that - the record stays counted as passed). *)
+Definition composite_parse (extract : record -> option record)
+                           (cfg : config) (cnt : counters) (input : bytes) : outcome (option record) * counters :=
+  match parse cfg cnt input with
+  | (Ok (Some r), c) => (Ok (extract r), c)
+  | other => other
   end.
 
 (* ---------- correspondence entry point ----------
